@@ -1237,3 +1237,143 @@ func ruleBrokerListeners(c *Ctx) {
 		c.R.Hold("R-RES/brokerls", p.Pos(stopNode.Ast), stop.Name, "broker closed before the server stops", "every path to grpc.Server.Stop has closed the broker", true)
 	}
 }
+
+// ---------- R-COPY: objects that carry synchronisation state are never copied ----------
+
+// ruleNoCopySync: a struct that (transitively, by value) contains a sync
+// primitive, an atomic type, or a counter used through sync/atomic is shared by
+// reference. A value receiver, a by-value parameter or result, a dereferencing
+// assignment or a by-value range variable operates on a copy: locks taken on
+// the copy protect nothing and atomic counters advance on the copy only (two
+// NextId calls return the same id).
+func ruleNoCopySync(c *Ctx) {
+	p := c.P
+	// fields whose address is passed to sync/atomic functions
+	atomicField := map[*types.Var]bool{}
+	for _, f := range p.Funcs {
+		info := f.Pkg.TypesInfo
+		for _, call := range f.Calls() {
+			if !strings.HasPrefix(p.CalleeName(f, call), "sync/atomic.") || len(call.Args) == 0 {
+				continue
+			}
+			if u, ok := ast.Unparen(call.Args[0]).(*ast.UnaryExpr); ok && u.Op == token.AND {
+				if fv := SelField(info, u.X); fv != nil {
+					atomicField[fv] = true
+				}
+			}
+		}
+	}
+	memo := map[types.Type]bool{}
+	var carries func(t types.Type, depth int) bool
+	carries = func(t types.Type, depth int) bool {
+		if t == nil || depth > 6 {
+			return false
+		}
+		if v, ok := memo[t]; ok {
+			return v
+		}
+		memo[t] = false
+		res := false
+		switch ts := t.String(); ts {
+		case "sync.Mutex", "sync.RWMutex", "sync.WaitGroup", "sync.Once", "sync.Cond", "sync.Map", "sync.Pool":
+			res = true
+		default:
+			if strings.HasPrefix(ts, "sync/atomic.") {
+				res = true
+			}
+		}
+		if !res {
+			switch u := t.Underlying().(type) {
+			case *types.Struct:
+				for i := 0; i < u.NumFields(); i++ {
+					fv := u.Field(i)
+					if atomicField[fv] || carries(fv.Type(), depth+1) {
+						res = true
+					}
+				}
+			case *types.Array:
+				res = carries(u.Elem(), depth+1)
+			}
+		}
+		memo[t] = res
+		return res
+	}
+	inModule := func(t types.Type) bool {
+		if n, ok := t.(*types.Named); ok && n.Obj().Pkg() != nil {
+			return strings.HasPrefix(n.Obj().Pkg().Path(), modPath)
+		}
+		return false
+	}
+	nTypes := 0
+	for _, sp := range scopePkgs {
+		pk := p.Pkgs[sp]
+		if pk == nil {
+			continue
+		}
+		sc := pk.Types.Scope()
+		for _, n := range sc.Names() {
+			if tn, ok := sc.Lookup(n).(*types.TypeName); ok && carries(tn.Type(), 0) {
+				nTypes++
+			}
+		}
+	}
+	bad := 0
+	report := func(f *Func, at ast.Node, what string, t types.Type) {
+		bad++
+		c.R.Violate("R-COPY", p.Pos(at), f.Name, what+" of "+types.TypeString(t, func(pk *types.Package) string { return pk.Name() }),
+			"a struct that carries synchronisation state (a mutex, Once, WaitGroup or an atomically updated counter) is copied here: the copy's lock protects nothing and its counter advances separately, so the guarded data races and ids handed out by atomic increments repeat", nil)
+	}
+	for _, f := range p.Funcs {
+		if strings.HasSuffix(p.Fset.Position(f.Body.Pos()).Filename, "testing.go") {
+			continue
+		}
+		info := f.Pkg.TypesInfo
+		if f.Decl != nil && f.Decl.Recv != nil {
+			for _, fd := range f.Decl.Recv.List {
+				if t := info.TypeOf(fd.Type); t != nil && inModule(t) && carries(t, 0) {
+					report(f, fd, "value receiver", t)
+				}
+			}
+		}
+		for _, fl := range []*ast.FieldList{f.Type.Params, f.Type.Results} {
+			if fl == nil {
+				continue
+			}
+			for _, fd := range fl.List {
+				if t := info.TypeOf(fd.Type); t != nil && inModule(t) && carries(t, 0) {
+					report(f, fd, "by-value parameter/result", t)
+				}
+			}
+		}
+		walkNoLit(f.Body, func(x ast.Node) bool {
+			switch s := x.(type) {
+			case *ast.AssignStmt:
+				if len(s.Lhs) != len(s.Rhs) {
+					return true
+				}
+				for _, r := range s.Rhs {
+					r = ast.Unparen(r)
+					switch r.(type) {
+					case *ast.CompositeLit, *ast.CallExpr:
+						continue
+					}
+					if t := info.TypeOf(r); t != nil && inModule(t) && carries(t, 0) {
+						report(f, s, "copying assignment", t)
+					}
+				}
+			case *ast.RangeStmt:
+				if s.Value != nil {
+					if t := info.TypeOf(s.Value); t != nil && inModule(t) && carries(t, 0) {
+						report(f, s, "by-value range variable", t)
+					}
+				}
+			}
+			return true
+		})
+	}
+	if nTypes < 8 {
+		c.R.Undecided("R-COPY", "", "instance-floor", fmt.Sprintf("only %d module types carrying synchronisation state found, at least 8 expected (Client, both brokers, both muxers, the servers, the pending slots)", nTypes))
+	} else if bad == 0 {
+		c.R.Hold("R-COPY", "-", "", "no copy of an object carrying synchronisation state", fmt.Sprintf("%d module types carry a sync primitive or an atomically updated field; none has a value receiver, is passed, returned, assigned or ranged by value", nTypes), true)
+	}
+}
